@@ -30,3 +30,7 @@ package p2p
 //@   ensures has(m.validatorRegistry, topic) && len(m.validatorRegistry[topic]) == old(ite(has(m.validatorRegistry, topic), len(m.validatorRegistry[topic]), 0)) + 1
 //@   ensures forall i :: 0 <= i && i < old(ite(has(m.validatorRegistry, topic), len(m.validatorRegistry[topic]), 0)) ==> m.validatorRegistry[topic][i] == old(m.validatorRegistry[topic][i])
 //@   ensures forall t Str :: t != topic ==> (has(m.validatorRegistry, t) == old(has(m.validatorRegistry, t)) && len(m.validatorRegistry[t]) == old(len(m.validatorRegistry[t])))
+//@
+//@ // C05: the trace context of a gossiped envelope is attacker-supplied: extracting it never panics
+//@ func ExtractTraceContext
+//@   ensures true
